@@ -109,6 +109,15 @@ template <typename TC> static void check_control(TC& c, int id, int k) {
 	for (int s = 0; s < NS; ++s)
 		if (act != -2 && c.isActive(static_cast<StateID>(s)) != (act == s))
 			err(std::string(kname[k]) + " of state " + num(id) + ": control.isActive(" + num(s) + ") is " + num(c.isActive(static_cast<StateID>(s))) + " while the machine reports active state " + num(act));
+	// the type-based form answers like the id-based one
+	{ const bool t[4] = { c.template isActive<S<0>>(), c.template isActive<S<1>>(), c.template isActive<S<2>>(),
+#if NS == 4
+		c.template isActive<S<3>>()
+#else
+		false
+#endif
+	  };
+	  for (int s = 0; s < NS; ++s) if (t[s] != c.isActive(static_cast<StateID>(s))) err(std::string(kname[k]) + " of state " + num(id) + ": control.isActive<S<" + num(s) + ">>() is " + num(t[s]) + " but control.isActive(" + num(s) + ") is " + num(c.isActive(static_cast<StateID>(s)))); }
 	if (&c.context() == nullptr || c.context().tag != 77) err("control.context() is not the machine's context");
 }
 static void guard(FSM::GuardControl& c, int id, int k) {
@@ -152,6 +161,9 @@ static void lifecycle(PlanControlX& c, int id, int k) {
 		if (k == ENTER) { if (id < 0) p_root = true; else p_entered = id; }
 		if (k == EXIT) { if (id < 0) p_root = false; else p_entered = -1; }
 	}
+	// C01: while enter(id) runs, id -- and nothing else -- is the active state as seen through the control
+	if ((ORACLES & O_PROTOCOL) && k == ENTER && id >= 0)
+		for (int s = 0; s < NS; ++s) if (c.isActive(static_cast<StateID>(s)) != (s == id)) err("during enter(" + num(id) + ") control.isActive(" + num(s) + ") is " + num(c.isActive(static_cast<StateID>(s))));
 	if ((ORACLES & O_PAYLOAD) && (k == ENTER || k == REENTER) && id >= 0 && (in_step || activation) && !same(c.currentTransition(), survivor))
 		err(std::string(kname[k]) + " of state " + num(id) + " sees current " + show(c.currentTransition()) + " but the surviving request is " + show(survivor));
 }
@@ -261,13 +273,37 @@ int main() {
 				if ((ORACLES & O_HISTORY) && !same(m.previousTransition(), surv)) err("after activation: previousTransition() is " + show(m.previousTransition()) + " but the applied redirect is " + show(surv));
 			}
 			for (int step = 0; step < 2 && errors.empty(); ++step) {
-				const int api = choose(2 + 2 * NS);   // 0 update, 1 react, 2.. immediateChangeTo / immediateChangeWith
+				const int api = choose(2 + 4 * NS);   // 0 update, 1 react, 2.. immediateChangeTo / immediateChangeWith, then deferred changeTo<T>(), then replayTransition
 				const int before = active_now();
 				round_close(); survivor = Req{}; last_request = leftover; in_step = true; cycle.clear();
 				std::string what; Req api_req = Req{};
 				Ev ev{5}; cur_event = nullptr;
 				if (api == 0) { what = "update()"; note("|update"); m.update(); }
 				else if (api == 1) { what = "react()"; note("|react"); cur_event = &ev; m.react(ev); cur_event = nullptr; }
+				else if (api >= 2 + 2 * NS && api < 2 + 3 * NS) {
+					// C02: the type-based deferred request changes nothing when made; it is the outstanding request of the next step
+					const int k = api - 2 - 2 * NS; what = "changeTo<S<" + num(k) + ">>()"; note("|" + what);
+					const std::string t_before = trace;
+					switch (k) { case 0: m.changeTo<S<0>>(); break; case 1: m.changeTo<S<1>>(); break; case 2: m.changeTo<S<2>>(); break;
+#if NS == 4
+						case 3: m.changeTo<S<3>>(); break;
+#endif
+						default: break; }
+					if (trace != t_before) err(what + " ran callbacks when the request was made: " + trace.substr(t_before.size()));
+					if (active_now() != before) err(what + " changed the active state from " + num(before) + " to " + num(active_now()) + " when the request was made");
+					leftover = Req{-1, k, false, 0, true}; round_close(); in_step = false; continue;
+				}
+				else if (api >= 2 + 3 * NS) {
+					// C01 / C11: replayTransition(k): exit(old) then enter(k), or reenter(k) alone; no guard is consulted
+					const int k = api - 2 - 3 * NS; what = "replayTransition(" + num(k) + ")"; note("|" + what);
+					const size_t n0 = trace.size();
+					m.replayTransition(static_cast<StateID>(k));
+					const std::string got = trace.substr(n0);
+					const std::string want = (k == before) ? ("reenter" + num(k) + " ") : ("exit" + num(before) + " enter" + num(k) + " ");
+					if ((ORACLES & (O_PROTOCOL | O_HISTORY)) && got != want) err(what + " from state " + num(before) + " delivered '" + got + "', expected '" + want + "'");
+					if ((ORACLES & (O_PROTOCOL | O_HISTORY)) && active_now() != k) err(what + " left the machine in state " + num(active_now()));
+					round_close(); in_step = false; continue;      // (an outstanding request stays outstanding)
+				}
 				else if (api < 2 + NS) { what = "immediateChangeTo(" + num(api - 2) + ")"; note("|" + what); last_request = api_req = Req{-1, api - 2, false, 0, true}; m.immediateChangeTo(static_cast<StateID>(api - 2)); }
 				else { const int p = ++payload_counter; what = "immediateChangeWith(" + num(api - 2 - NS) + "," + num(p) + ")"; note("|" + what); last_request = api_req = Req{-1, api - 2 - NS, true, p, true}; m.immediateChangeWith(static_cast<StateID>(api - 2 - NS), p); }
 				round_close(); in_step = false;
